@@ -1,10 +1,11 @@
 // C10: history / refusal / schedule independence of the lunar-month memo and everything built on it
 use std::io::Write;
-use tyme4rs::tyme::lunar::{LunarMonth, verif_lunar_month_cache_keys, verif_lunar_month_cache_reset};
+use tyme4rs::tyme::{Culture, Tyme};
+use tyme4rs::tyme::lunar::{LunarDay, LunarHour, LunarMonth, verif_lunar_month_cache_keys, verif_lunar_month_cache_reset};
 use crate::util::*;
 use crate::p03::fmt_month;
 
-const OPS: &[&str] = &["cache.reset", "cache.keys", "cache.threads"];
+const OPS: &[&str] = &["cache.reset", "cache.keys", "cache.threads", "c10.objhist"];
 
 pub fn exec(op: &str, a: &[i64]) -> Option<Option<String>> {
   if OPS.contains(&op) { Some(go(op, a)) } else { None }
@@ -46,6 +47,79 @@ fn go(op: &str, a: &[i64]) -> Option<String> {
         hs.into_iter().flat_map(|h| h.join().unwrap_or_else(|_| vec!["thread-panic".to_string()])).collect()
       });
       if bad.is_empty() { Some(format!("ok {} answers", nthreads * nops)) } else { Some(format!("MISMATCH {}", bad.join(";").replace(' ', "_"))) }
+    }
+    // kind seed len y m d h mi s: a pseudo-random history of queries, clones and steps on ONE LunarHour (kind 0) or
+    // LunarDay (kind 1) value whose lazily filled per-object memos accumulate, compared after every operation with
+    // the same operation on a value rebuilt from its numbers (empty memos). "ok" or the first difference with the history.
+    ("c10.objhist", 9) => {
+      let mut st = (a[1] as u64).wrapping_mul(0x9E3779B97F4A7C15) | 1;
+      let len = a[2].clamp(1, 200) as usize;
+      let steps: [isize; 14] = [1, -1, 2, -2, 3, 5, -5, 6, 11, 12, -12, 13, 40, -700];
+      let mut hist: Vec<String> = Vec::new();
+      if a[0] == 0 {
+        let mut x = LunarHour::new(a[3] as isize, a[4] as isize, us(a[5])?, us(a[6])?, us(a[7])?, us(a[8])?).ok()?;
+        let fields = |h: &LunarHour| (h.get_year(), h.get_month(), h.get_day(), h.get_hour(), h.get_minute(), h.get_second());
+        let fresh = |h: &LunarHour| { let f = fields(h); LunarHour::from_ymd_hms(f.0, f.1, f.2, f.3, f.4, f.5) };
+        let q = |k: u64, h: &LunarHour| -> String { match k {
+          0 => { let t = h.get_solar_time(); format!("{} {} {} {} {} {}", t.get_year(), t.get_month(), t.get_day(), t.get_hour(), t.get_minute(), t.get_second()) }
+          1 => { let v = h.get_sixty_cycle_hour(); format!("{} {} {} {}", v.get_year().get_index(), v.get_month().get_index(), v.get_day().get_index(), v.get_sixty_cycle().get_index()) }
+          2 => { let e = h.get_eight_char(); format!("{} {} {} {}", e.get_year().get_index(), e.get_month().get_index(), e.get_day().get_index(), e.get_hour().get_index()) }
+          3 => format!("{} {}", h.get_sixty_cycle().get_index(), h.get_index_in_day()),
+          4 => format!("{} {}", h.get_twelve_star().get_index(), h.get_minor_ren().get_index()),
+          _ => { let r: Vec<String> = h.get_recommends().iter().map(|t| t.get_name()).collect(); let v: Vec<String> = h.get_avoids().iter().map(|t| t.get_name()).collect(); format!("{}/{}", r.join(","), v.join(",")) }
+        } };
+        for i in 0..len {
+          let r = xorshift(&mut st);
+          let kind = r % 10;
+          if kind < 5 {
+            let k = (r >> 8) % 6;
+            hist.push(format!("q{}", k));
+            let (w, f) = (q(k, &x), q(k, &fresh(&x)));
+            if w != f { return Some(format!("DIFF step={} hist={} kept={} rebuilt={}", i, hist.join(","), w.replace(' ', "_"), f.replace(' ', "_"))); }
+          } else if kind < 9 {
+            let n = steps[((r >> 8) % 14) as usize];
+            hist.push(format!("next({})", n));
+            let (w, f) = (x.next(n), fresh(&x).next(n));
+            if fields(&w) != fields(&f) { return Some(format!("DIFF step={} hist={} kept={:?} rebuilt={:?}", i, hist.join(","), fields(&w), fields(&f)).replace(", ", "_")); }
+            x = w;
+          } else {
+            hist.push("clone".into());
+            x = x.clone();
+          }
+        }
+        Some("ok".into())
+      } else if a[0] == 1 {
+        let mut x = LunarDay::new(a[3] as isize, a[4] as isize, us(a[5])?).ok()?;
+        let fields = |h: &LunarDay| (h.get_year(), h.get_month(), h.get_day());
+        let fresh = |h: &LunarDay| { let f = fields(h); LunarDay::from_ymd(f.0, f.1, f.2) };
+        let q = |k: u64, h: &LunarDay| -> String { match k {
+          0 => { let t = h.get_solar_day(); format!("{} {} {}", t.get_year(), t.get_month(), t.get_day()) }
+          1 => { let v = h.get_sixty_cycle_day(); format!("{} {} {}", v.get_year().get_index(), v.get_month().get_index(), v.get_sixty_cycle().get_index()) }
+          2 => format!("{} {}", h.get_sixty_cycle().get_index(), h.get_week().get_index()),
+          3 => format!("{} {} {}", h.get_duty().get_index(), h.get_twelve_star().get_index(), h.get_twenty_eight_star().get_index()),
+          _ => { let r: Vec<String> = h.get_gods().iter().map(|t| t.get_name()).collect(); r.join(",") }
+        } };
+        for i in 0..len {
+          let r = xorshift(&mut st);
+          let kind = r % 10;
+          if kind < 5 {
+            let k = (r >> 8) % 5;
+            hist.push(format!("q{}", k));
+            let (w, f) = (q(k, &x), q(k, &fresh(&x)));
+            if w != f { return Some(format!("DIFF step={} hist={} kept={} rebuilt={}", i, hist.join(","), w.replace(' ', "_"), f.replace(' ', "_"))); }
+          } else if kind < 9 {
+            let n = steps[((r >> 8) % 14) as usize];
+            hist.push(format!("next({})", n));
+            let (w, f) = (x.next(n), fresh(&x).next(n));
+            if fields(&w) != fields(&f) { return Some(format!("DIFF step={} hist={} kept={:?} rebuilt={:?}", i, hist.join(","), fields(&w), fields(&f)).replace(", ", "_")); }
+            x = w;
+          } else {
+            hist.push("clone".into());
+            x = x.clone();
+          }
+        }
+        Some("ok".into())
+      } else { None }
     }
     _ => Some("bad-op".to_string()),
   }
